@@ -3,3 +3,5 @@ import Props.C14
 import Props.C17
 import Props.C20
 import Props.C19
+import Props.C01
+import Props.C06
